@@ -199,6 +199,7 @@ static Verdict residue(const std::string &at, const Snap &a, const Snap &b, bool
     if (a.env_sum != b.env_sum) return bad("environment-changed", at + "environ differs");
     if (a.cwd != b.cwd) return bad("cwd-changed", at + "working directory " + b.cwd + " instead of " + a.cwd);
     if (a.umask_v != b.umask_v) return bad("umask-changed", at + "umask changed");
+    if (a.stream_locks != b.stream_locks) return bad("stream-lock-held", at + "the lock of the caller's " + std::string((b.stream_locks & ~a.stream_locks) & 1 ? "stdout" : "stderr") + " stream is held (flockfile without funlockfile): every other thread of the caller that prints blocks for ever");
     if (a.locale != b.locale) return bad("locale-changed", at + "locale of the calling program is " + b.locale + " instead of " + a.locale);
     if (a.sig_sum != b.sig_sum) return bad("signals-changed", at + "signal mask or dispositions changed");
     if (heap_zero_expected && warm && b.lib_live_allocs > warm->lib_live_allocs)
